@@ -70,8 +70,13 @@ def gen_cases(rng, tier):
                 b = _qty.tok(rng, _qty.amount(rng))
                 ops.append(["q_bin", rng.choice(["add", "sub"]), f"{a}@{u}", f"{b}@{v}", mode])
             elif r < .7:
-                kk = rng.choice(["3", "1/3", "7/5", "-2", "1/7", "1000", "5/2"])
-                ops.append(["q_num", rng.choice(["mul", "div"]), f"{a}@{u}", kk, mode])
+                kk = rng.choice(["3", "1/3", "7/5", "-2", "1/7", "1000", "5/2", "I:3", "I:-2", "L:5/2",
+                                 "L:1/8", "F:7/5", "L:3602879701896397/36028797018963968"])
+                if rng.random() < .25:
+                    # unit (x) number: the quantity `k unit`, rounded once
+                    ops.append(["u_num", rng.choice(["mul", "rmul", "div"]), u, kk, mode])
+                else:
+                    ops.append(["q_num", rng.choice(["mul", "div"]), f"{a}@{u}", kk, mode])
             elif r < .78:
                 ops.append(["q_num", rng.choice(["neg", "abs"]), f"{a}@{u}", "1", mode])
             elif others:
@@ -151,6 +156,11 @@ def oracle(case, impl):
                 else:
                     msg = _qty.check_value_result(ctx, mode, out, (x * su) / (y * sv),
                                                   _qty.dim_add(du, dv, -1), what)
+        elif o[0] == "u_num":
+            k = _qty.tok_value(o[3])
+            e = k if o[1] in ("mul", "rmul") else 1 / k
+            exp = "ok " + ctx.qty(ctx.grid(o[2], e, mode), o[2])
+            msg = None if out == exp else f"{what} -> {out}, expected {exp}"
         elif o[0] == "q_num":
             a, _, u = o[2].rpartition("@")
             x = ctx.grid(u, _qty.tok_value(a), mode)
@@ -159,7 +169,7 @@ def oracle(case, impl):
             exp = "ok " + ctx.qty(ctx.grid(u, e, mode), u)
             msg = None if out == exp else f"{what} -> {out}, expected {exp}"
         if msg:
-            fails.append({"site": "grid:" + o[0] + (":" + o[1] if o[0] in ("q_bin", "q_num") else ""),
+            fails.append({"site": "grid:" + o[0] + (":" + o[1] if o[0] in ("q_bin", "q_num", "u_num") else ""),
                           "msg": msg})
         # on-grid check of whatever came out
         got = _qty.parse_qty_out(out)
@@ -174,5 +184,5 @@ def nontrivial_key(case, impl):
     if case.get("delegate"):
         return {("money", o[1], o[-1]) for o in case["ops"] if o[0] in ("q_bin", "money_rate")}
     for o, out in list(zip(case["ops"], impl))[case["nsetup"]:]:
-        keys.add((o[0], o[1] if o[0] in ("q_bin", "q_num") else "", o[-1], out.rpartition("@")[2]))
+        keys.add((o[0], o[1] if o[0] in ("q_bin", "q_num", "u_num") else "", o[-1], out.rpartition("@")[2]))
     return keys
